@@ -39,6 +39,6 @@ if ok:
                               "first_witness": d["check"].get("first")} for p, d in runs.items()}
     meta["detected"] = any(d["check"]["rc"] == 1 for d in runs.values())
     (dest / "meta.json").write_text(json.dumps(meta, indent=1) + "\n")
-print(json.dumps({"id": sid, "kept": bool(ok), "detected": {p: d["check"]["rc"] for p, d in runs.items()},
-                  "kind": {p: d["check"].get("replay_kind") for p, d in runs.items()},
+print(json.dumps({"id": sid, "kept": bool(ok), "detected": {p: d["check"]["rc"] if "check" in d else None for p, d in runs.items()},
+                  "kind": {p: d["check"].get("replay_kind") if "check" in d else None for p, d in runs.items()},
                   "suite": first.get("suite_with_change"), "demo": [first["demo_without_change"]["rc"], first["demo_with_change"]["rc"]]}))
